@@ -8,7 +8,7 @@ import types
 
 from coop import Coop, ExecModel, Killed, Sched
 
-OUTCOMES = ["passed", "failed", "skipped"]
+OUTCOMES = ["passed", "failed", "skipped", "garbled"]    # garbled: the controller cannot rebuild the report
 
 _BY_COOP = {}
 
@@ -45,6 +45,13 @@ class Item:
 
 
 class FakeSession:
+    # pytest.Session's own exception classes (raised out of a runtestloop to end the session)
+    class Failed(Exception):
+        pass
+
+    class Interrupted(KeyboardInterrupt):
+        pass
+
     def __init__(self, ids):
         self.items = [Item(i) for i in ids]
         self.shouldfail = False
@@ -158,8 +165,15 @@ class WorkerSim:
                                                          longrepr="collect-error-%d" % key, nodeid="coll%d" % key,
                                                          outcome="failed" if failed else "skipped"))
         i.pytest_collection_finish(self.session)
-        i.pytest_runtestloop(self.session)
-        g = i.pytest_sessionfinish(0)
+        # what _pytest.main.wrap_session does with the outcome of the loop
+        status = 0
+        try:
+            i.pytest_runtestloop(self.session)
+        except self.session.Failed:
+            status = 1
+        except self.session.Interrupted:
+            status = 2
+        g = i.pytest_sessionfinish(status)
         next(g)
         try:
             next(g)
@@ -284,5 +298,7 @@ class WorkerSim:
             return [name, [int(x) for x in kw["indices"]]]
         if name == "workerfinished":
             wo = kw["workeroutput"]
+            if wo.get("exitstatus") == 2:
+                return [name, 2]            # the controller takes this for a keyboard interrupt
             return [name, int(bool(wo["shouldfail"] or wo["shouldstop"]))]
         return [name]
